@@ -106,7 +106,7 @@ def run(c, chk):
             chk.fail('R14.1', key + ':untested', c.where(cb.ins), 'the result of the parse callback of a %s option is not tested' % ty)
             continue
         if verdict:
-            eff = [e for e in after if (e.kind == 'store' and e.addr[0] != 'alloca') or (e.kind == 'call' and e.name not in ('cfg_error',))]
+            eff = [e for e in after if (e.kind == 'store' and sym.object_of(e.addr)[0] != 'alloca') or (e.kind == 'call' and e.name not in ('cfg_error',))]
             if p.retval != sym.C0 or eff:
                 chk.fail('R14.1', key + ':veto', c.where(cb.ins), 'a failing parse callback (%s option) does not make cfg_setopt() fail without further effect' % ty,
                          witness=[repr(e) for e in after[:5]])
@@ -158,8 +158,8 @@ def run(c, chk):
                 elif verdict:
                     after = tr.events[tr.events.index(vc) + 1:]
                     eff = [e for e in after if (e.kind == 'call' and e.name not in ('free', 'cfg_error')
-                                                and not (e.name == 'cfg_free_value' and e.args and e.args[0][0] == 'alloca'))
-                           or (e.kind == 'store' and e.addr[0] != 'alloca')]
+                                                and not (e.name == 'cfg_free_value' and e.args and sym.object_of(e.args[0])[0] == 'alloca'))
+                           or (e.kind == 'store' and sym.object_of(e.addr)[0] != 'alloca')]
                     if not (tr.kind == 'ret' and tr.ret == 1) or eff:
                         chk.fail('R14.1', 'validcb-veto:state%d' % s, c.where(vc.ins), 'state %d: a failing validation callback does not stop the parse at that point' % s, witness=[tr.describe()])
                 if len(vc.args) != 2 or vc.args[1] != ('p', 'opt'):
